@@ -1,4 +1,5 @@
 import Kio.Gen.Module
+import Kio.Gen.DefSpec
 import Kio.Wire
 /-!
 Line-protocol encoding of message definitions (input) and generated modules (output).
@@ -124,5 +125,27 @@ def GClass.render (names : List (List Nat)) (g : GClass) : String :=
 
 def renderModule (gs : List GClass) : String :=
   " ;; ".intercalate (gs.map (GClass.render (gs.map (·.name))))
+
+end Kio.Gen
+
+namespace Kio.Gen
+open Kio
+
+def renderFKind : DefSpec.FKind → String
+  | .prim k => s!"prim({renderKType (some k)})"
+  | .primArr k => s!"primArr({renderKType (some k)})"
+  | .struct n => s!"struct({strOfChars n})"
+  | .structArr n => s!"structArr({strOfChars n})"
+
+def renderExpClass (d : MsgDef) (v : Nat) (c : DefSpec.ExpClass) : String :=
+  let fs := c.fields.map (fun f => s!"{strOfChars f.name}:{renderFKind f.kind}:{f.nullable}:" ++
+    (match f.tag with | some t => toString t | none => "-"))
+  let hv := headerVersionOf d v
+  s!"{strOfChars c.name}|{c.top}|{DefSpec.flexibleAt d v}|" ++
+    (match d.apiKey with | some k => toString k | none => "-") ++ "|" ++
+    (match hv with | some h => toString h | none => "-") ++ "|" ++ " ".intercalate fs
+
+def renderDefSpec (d : MsgDef) (builtins : List (List Nat)) (v : Nat) : String :=
+  " ;; ".intercalate ((DefSpec.classesAt d builtins v).map (renderExpClass d v))
 
 end Kio.Gen
